@@ -125,10 +125,12 @@ def p_confidence(rnd, world, methods=None):
     m = rnd.choice(methods or CONF_METHODS)
     p = {"confidence_method": m}
     if m in ("ambiguity", "risk"):
-        if rnd.random() < 0.7:
-            p["eta_max"] = rnd.choice([0.2, 0.5, 0.7, 0.33, 0.9])
-        if rnd.random() < 0.7:
-            p["eta_step"] = rnd.choice([0.01, 0.05, 0.1, 0.25, 0.07])
+        # mostly values whose ratio is far from an integer and that do not coincide with quotients of small integer
+        # costs, so that sample counts and threshold comparisons are unambiguous and the value oracles apply
+        if rnd.random() < 0.8:
+            p["eta_max"] = rnd.choice([0.2, 0.5, 0.7, 0.33, 0.9, 0.21, 0.52, 0.83])
+        if rnd.random() < 0.8:
+            p["eta_step"] = rnd.choice([0.01, 0.05, 0.1, 0.07, 0.013, 0.037, 0.11, 0.023])
         if m == "ambiguity" and rnd.random() < 0.5:
             p["normalization"] = rnd.random() < 0.5
     if m == "interval_bounds":
